@@ -166,7 +166,7 @@ structure St where
   scStates : List (Sc × CState)
   scRefs : List (Sc × Slot)
   refs : List RefSt                      -- scRefList
-  rr : Nat                               -- rrRefId (uint32)
+  rr : Nat                               -- rrRefId (uint64 since F32)
   refreshingMap : List (Sc × Slot)
   picker : Picker                        -- gb.picker
   -- environment: the fake ClientConn, the clock, calls in flight
@@ -185,7 +185,7 @@ structure St where
 
 def init (ci : CfgInput) : St :=
   { cfgIn := ci, cfg := none, addrs := 0, nReady := 0, nConn := 0, nTF := 0, aggr := .idle,
-    affinity := [], fallback := [], scStates := [], scRefs := [], refs := [], rr := 2^32 - 1,
+    affinity := [], fallback := [], scStates := [], scRefs := [], refs := [], rr := 2^64 - 1,
     refreshingMap := [], picker := .errNoSc, nextSc := 0, failN := 0, scAddrs := [], removed := [],
     published := [], now := 0, calls := [], waiters := [], held := [] }
 
@@ -470,8 +470,9 @@ def place (s : St) (call : Nat) (slot : Slot) (cmd : Cmd) (loc : Loc) (key : Str
 def callIdUsed (s : St) (call : Nat) : Bool :=
   s.calls.any (fun c => c.id == call) || s.waiters.any (fun w => w.id == call) || s.held.any (fun h => h.1 == call)
 
-/-- a stopped pick holds the picker's mutex: no other pick on that picker can run -/
-def pickerBusy (s : St) (pn : Nat) : Bool := s.held.any (fun h => h.2 == pn)
+/-- a stopped pick holds the balancer's pick mutex (`pickMu`, F31): no other pick can run, on whichever
+    picker (before F31 the mutex belonged to the picker and only picks on the same picker waited) -/
+def pickerBusy (s : St) (_pn : Nat) : Bool := !s.held.isEmpty
 
 /-- method table lookup + affinity key of a BOUND / UNBIND call: (cmd, locator, key or error) -/
 def resolveCall (c : Cfg) (m : String) (ctx : CtxKind) (req : Req) : Cmd × Loc × Option String :=
@@ -507,7 +508,7 @@ def finishPick (s : St) (r : Option Slot) (ev : List Event) (call : Nat) (cmd : 
 def pickRR (s : St) (call : Nat) (loc : Loc) (ctx : CtxKind) (dl : Option Int) : St × List Event :=
   if s.refs.isEmpty then (s, [.res "PANIC"])            -- unreachable (modulus 0)
   else
-    let rr := (s.rr + 1) % 2^32
+    let rr := (s.rr + 1) % 2^64
     let slot := rr % s.refs.length
     let s := { s with rr := rr }
     if slotReady s slot then finishPick s (some slot) [] call .bind loc "" ctx dl
@@ -516,7 +517,7 @@ def pickRR (s : St) (call : Nat) (loc : Loc) (ctx : CtxKind) (dl : Option Int) :
 
 def opPick (s : St) (call pn : Nat) (m : String) (ctx : CtxKind) (dl : Option Int) (req : Req) :
     St × List Event :=
-  if callIdUsed s call || pickerBusy s pn then (s, [.res "bad-op"])   -- unique call ids; picker mutex free
+  if callIdUsed s call || pickerBusy s pn then (s, [.res "bad-op"])   -- unique call ids; pick mutex free
   else
   match s.published[pn]? with
   | none => (s, [.res "bad-op"])
